@@ -133,6 +133,16 @@ fn reverse(aa: &u8) -> PResult {
 }
 
 pub fn run(ctx: &mut Ctx) {
+    // The standard IUPAC tables are process-global and built on first use; which direction is used
+    // first is therefore part of the history. The driver runs one process per order.
+    let aas: Vec<u8> = model::AMINO_CANON.iter().map(|x| x.0).collect();
+    if ctx.order == 1 {
+        if matches!(ctx.mode, crate::obs::Mode::Replay { .. }) {
+            // a replayed forward case of this order: the reverse table was touched first
+            let _ = bio_seq::translation::STANDARD.try_to_codon(bio_seq::prelude::Amino::A);
+        }
+        ctx.each("reverse", aas.clone(), reverse);
+    }
     let mut cells = vec![];
     for a in 0..16u8 {
         for b in 0..16u8 {
@@ -156,8 +166,9 @@ pub fn run(ctx: &mut Ctx) {
         }
     }
     ctx.each("wrong_length", lens, wrong_len);
-    let aas: Vec<u8> = model::AMINO_CANON.iter().map(|x| x.0).collect();
-    ctx.each("reverse", aas, reverse);
+    if ctx.order != 1 {
+        ctx.each("reverse", aas, reverse);
+    }
     ctx.require_class("degenerate_unambiguous");
     ctx.require_class("ambiguous");
     ctx.require_class("straddles_word");
